@@ -230,6 +230,3 @@ Qed.
 (* ---------------------------------------------------------------- the code before the repair *)
 Lemma ts_trunc_refuted : exists n, 0 <= n /\ n * 1000 < 2 ^ 53 /\ ts_to_xml_trunc (ts_to_py n) <> n.
 Proof. exists 1001. vm_compute. repeat split; congruence. Qed.
-
-Lemma ts_trunc_window : count_changed ts_to_xml_trunc 0 (Z.to_nat 20000) = 187.
-Proof. vm_compute. reflexivity. Qed.
